@@ -351,6 +351,21 @@ func genLexGrammar(r *rand.Rand, o LexGenOpts) *Grammar {
 			lexemes = append(lexemes, string(lx))
 		}
 	}
+	// the same complete lexeme for a token and an ignored token, in both declaration orders
+	// (priority between kinds), and for two tokens (priority within a kind)
+	if len(lexemes) > 0 && r.Intn(2) == 0 {
+		lx := lexemes[r.Intn(len(lexemes))]
+		kind, name := DIgn, "!i_twin"
+		if r.Intn(3) == 0 {
+			kind, name = DTok, "t_twin"
+		}
+		d := LexDef{Kind: kind, Name: name, Pat: StrPattern(lx)}
+		at := r.Intn(len(out.Lex) + 1)
+		out.Lex = append(out.Lex[:at:at], append([]LexDef{d}, out.Lex[at:]...)...)
+		if kind == DTok {
+			slots = append(slots, slot{DTok, name})
+		}
+	}
 	// string literals: a tiny syntax part  S_ : X_ | S_ X_ ;  X_ : <each terminal> ;
 	nstr := 0
 	if o.StrLits > 0 {
